@@ -52,10 +52,12 @@ func axisPredicate(root *axisNode) func(NodeNavigator) bool {
 				type namespaceURL interface {
 					NamespaceURL() string
 				}
+				// An empty local name is the wildcard of prefix:*.
+				local := root.LocalName == "" || root.LocalName == n.LocalName()
 				if ns, ok := n.(namespaceURL); ok && root.hasNamespaceURI {
-					return root.LocalName == n.LocalName() && root.namespaceURI == ns.NamespaceURL()
+					return local && root.namespaceURI == ns.NamespaceURL()
 				}
-				if root.LocalName == n.LocalName() && root.Prefix == n.Prefix() {
+				if local && root.Prefix == n.Prefix() {
 					return true
 				}
 			} else {
